@@ -58,8 +58,11 @@ impl InstructionGenerator {
         match step {
             Some(s) => {
                 let step_pos = s.pos();
-                // load step to A
-                self.generate_expression_instructions(s);
+                // load step to A, converted to the type of the counter
+                self.generate_expression_instructions_casting(
+                    s,
+                    counter_var_name.expression_type(),
+                );
                 // A to D (step is in D)
                 self.push(Instruction::CopyAToD, pos);
                 // load 0 to B, after the step has been evaluated
